@@ -18,6 +18,90 @@ CHECKS = {
         "rule": "real SequentialSolver runs (NoCutoff) on (a) the bounded-exhaustive knapsack grid n<=3, w,p in {1,2}, cap<=4 x {LEL,frontier,pooled} x cache on/off x {simple,no-dup fringe} x widths 1..3 x rub {none,exact} x dominance {none,capacity} (a 1/7 slice in the quick tier) and (b) random instances of families T (table DP with powerset relaxation and deferred bonus; depth-free, permuted order, irrelevance, absorbing, re-convergent variants), K (knapsack) and P (set packing with dynamic variable order and long arcs) x random configurations (width heuristics FixedWidth 1..4, NbUnassignedWidth, Times, DivBy; rub none/exact/slack; dominance none/exact/weak; three state rankings); verdict by the exhaustive/DP optimum of the same instance. Non-trivial = the branch-and-bound popped >= 2 sub-problems and squashed (merged or truncated) at least one layer; distinct by (instance hash, configuration, variant).",
         "assumptions": COMMON_ASSUMPTIONS + ["non-termination is decided by a witness: the same sub-problem re-enqueued itself 200 times while being processed (then the cutoff is fired to end the run); a pop budget exhausted without witness is inconclusive"],
     },
+
+    "C06": {
+        "cmd": "c06", "flavours": ["checked", "release"], "level": "exploration", "engine_name": "vh-seq", "design_ref": "DESIGN.md §4 C06",
+        "budget": {"quick": 20, "thorough": 360},
+        "technique": "runtime monitoring: direct driver of the real diagram implementations through a recording wrapper (MonDD); value-to-go oracle h* + model-side solution replay",
+        "rule": "direct diagram driver: for random instances of families T/K/P (incl. long-arc variants) the harness enumerates reachable sub-problem roots (compile relaxed, drain the cut-set, recurse; <= 8 roots) and compiles every root with comp types {relaxed,restricted,exact} x widths 1..4 x incumbents {none, opt-d, opt, opt+d, global opt-1} on a fresh object and on a reused object whose history holds earlier compilations of other roots/types and compilations interrupted by a cutoff; x {LEL, frontier, pooled}; empty cache and dominance. Checked on every relaxed compilation: best_value >= sub-problem optimum when it beats the incumbent; when is_exact(): best exact value == optimum (if it beats the incumbent), never above it, best exact solution replays to exactly that value and extends the root path; Completion agrees with the accessors. Non-trivial = relaxed compilation with >= 1 merge; distinct by (instance, diagram type, root, width, incumbent).",
+        "level_text": "Exploration: ~10^5..10^7 real compilations per run checked against the exact value-to-go of the instance; covers fresh and reused diagram objects including histories with interrupted compilations. The property quantifies over all sub-problems/widths/incumbents/histories, so a run-time oracle can only sample them; tiny instances make the incumbent and width grids dense.",
+        "level_note": "Trusted: h* tables of the harness families, the replay functions. The incumbent-relative clauses are only demanded when the sub-problem optimum beats the incumbent (otherwise the rough bound may legitimately prune everything).",
+        "assumptions": COMMON_ASSUMPTIONS + ["'in isolation' = EmptyCache and EmptyDominanceChecker"],
+    },
+    "C07": {
+        "cmd": "c07", "flavours": ["checked", "release"], "level": "exploration", "engine_name": "vh-seq", "design_ref": "DESIGN.md §4 C07",
+        "budget": {"quick": 20, "thorough": 360},
+        "technique": "runtime monitoring: direct driver of the real diagram implementations (MonDD); value-to-go oracle h* + model-side solution replay",
+        "rule": "same driver and space as C06. Checked on every restricted / exact-mode compilation: best_value <= sub-problem optimum; best_solution replays (model side) to exactly best_value and extends the root path; if the restricted diagram declares itself exact, or the compilation is in exact mode (any max_width, including 1), and the sub-problem optimum beats the incumbent, best_value == optimum. Non-trivial = restricted compilation in which a layer had more candidates than max_width (truncated), or an exact-mode compilation; distinct by (instance, diagram type, root, width, incumbent, type).",
+        "level_text": "Exploration: every restricted and exact-mode compilation of the C06 driver (10^5..10^7 per run) compared with the exact sub-problem optimum and replayed on the model.",
+        "level_note": "Trusted: h* tables and replay functions of the harness families.",
+        "assumptions": COMMON_ASSUMPTIONS + ["'in isolation' = EmptyCache and EmptyDominanceChecker"],
+    },
+    "C08": {
+        "cmd": "c08", "flavours": ["checked", "release"], "level": "exploration", "engine_name": "vh-seq", "design_ref": "DESIGN.md §4 C08",
+        "budget": {"quick": 20, "thorough": 360},
+        "technique": "runtime monitoring: MonDD intercepts drain_cutset; replay oracle, h* oracle and explicit enumeration of the improving completions of the sub-problem (coverage)",
+        "rule": "same driver as C06 (40% long-arc instances). For every inexact relaxed compilation the handed-out cut-set is checked: (i) the path of every node replays from the problem root to its state with its value at its depth (skipped variables only where the state is not impacted); (ii) depth strictly greater than the compiled root's; (iii) ub >= value + h* whenever that beats the incumbent; (iv) coverage: static-order families - explicit DFS over all completions of the root whose value beats max(incumbent, best exact value) (pruned with h*), each must visit a handed-out (state, depth); dynamic-order family P - value level: the best completion through the cut-set reaches the sub-problem optimum. Non-trivial = inexact relaxed compilation handing out >= 2 nodes; distinct by (instance, diagram, root, width, incumbent).",
+        "level_text": "Exploration with an exhaustive inner oracle: each sampled compilation has its cut-set checked against *all* improving completions of its sub-problem (explicit enumeration on tiny instances).",
+        "level_note": "Trusted: h*, replay. Coverage enumeration budget 200k nodes per cut-set (exhaustion counted, never a verdict).",
+        "assumptions": COMMON_ASSUMPTIONS + ["'in isolation' = EmptyCache and EmptyDominanceChecker"],
+    },
+    "C10": {
+        "cmd": "c10", "flavours": ["checked", "release"], "level": "exploration", "engine_name": "vh-seq", "design_ref": "DESIGN.md §4 C10",
+        "budget": {"quick": 20, "thorough": 300},
+        "technique": "runtime monitoring: real SimpleDominanceChecker against a naive recorded-list Pareto model (exhaustive short query sequences + random long ones); differential solver runs with/without checker judged by the optimum",
+        "rule": "(a) real SimpleDominanceChecker over a test Dominance (2 keys + one key-less state, coordinates {0,1,2}x{0,1}, values {0,1,2}, use_value on and off): every query sequence up to length 3 (quick) / 4 (thorough) over the 37-query universe, and random sequences of 5..200 queries over two depths; reference = list of all states presented so far: dominated iff some presented state of the same key/depth is >= everywhere and > somewhere; threshold >= value and the state presented at the threshold is dominated by the reference; comparator consistency for all pairs (partial_cmp vs reference, cmp ranks a dominating state first). (b) solver level: families T and K with exact and weakened admissible rules, sequential and free-running parallel, same configuration with and without checker vs the optimum. Non-trivial: (a) sequence with >= 1 dominated verdict and >= 1 eviction, (b) run in which >= 1 node was discarded by dominance (counted by a wrapper).",
+        "level_text": "Exploration, exhaustive over short query sequences on a small alphabet; solver-level differential runs judged by the exhaustive optimum.",
+        "level_note": "Trusted: the naive reference (transitivity of dominance makes 'all presented' equivalent to 'Pareto front').",
+        "assumptions": COMMON_ASSUMPTIONS,
+    },
+    "C11": {
+        "cmd": "c11", "flavours": ["checked", "release"], "level": "exploration", "engine_name": "vh-seq", "design_ref": "DESIGN.md §4 C11",
+        "budget": {"quick": 25, "thorough": 300},
+        "addons": ["miri_c11"],
+        "technique": "runtime monitoring: operation histories with unique ids on the real SimpleFringe / NoDupFringe checked against a multiset / (state,depth)-map reference (exhaustive short histories + random long ones); solver-level differential NoDup vs Simple vs optimum; Miri on the same histories (thorough)",
+        "rule": "every pushed sub-problem carries a unique id in its path, so each pop identifies the push it returns. (a) all histories up to length 5 (quick) / 6 (thorough) over {push(state in {0,1}, depth in {0,1}, value in {1,2}, ub in {2,3}), pop, clear} on both fringes with MaxUB; (b) random histories of 200 / 2000 operations over 5 states x 3 depths; reference: plain vector for SimpleFringe, map keyed by (state, depth) for NoDupFringe (survivor = larger value with that value's path, max ub); checks: pop returns a comparator-maximal element of the reference, len()/is_empty() agree after every operation, nothing lost or invented (final drain), no coalescing across different (state, depth). (c) solver level: depth-free / long-arc models solved with both fringes vs the optimum. Non-trivial = NoDup history with >= 1 coalescing push and >= 1 pop after it (solver level: depth-free model whose fringe held pending nodes).",
+        "level_text": "Exploration, exhaustive over all short histories of a small alphabet (both fringes), random long histories for the recycle bin / position table paths.",
+        "level_note": "Trusted: the reference models. Pop-order ties accept any comparator-maximal element.",
+        "assumptions": COMMON_ASSUMPTIONS,
+    },
+    "C12": {
+        "cmd": "c12", "flavours": ["checked"], "level": "exploration", "engine_name": "vh-seq", "design_ref": "DESIGN.md §4 C12",
+        "budget": {"quick": 20, "thorough": 300},
+        "technique": "runtime monitoring: online checker of a trace specification over the callbacks recorded by wrappers around Problem / Relaxation",
+        "rule": "every compilation of (a) the direct diagram driver of C06 and (b) real sequential solver runs (all configurations, cache and dominance included) is recorded through RecProblem/RecRelax and checked: transition_cost(src,dst,d) only with d emitted by the model for (var(d), src) and dst == transition(src,d) (recomputed); relax(src,dst,merged,d,cost) with the same, cost == current cost of that arc, merged == state returned by the last merge of this layer, that merge had >= 2 inputs all of the current layer and containing dst; for_each_in_domain only for the variable last returned by next_variable and for states of the current layer (or the merged state); next_variable depth == root depth + number of preceding calls. Family T's deferred-bonus relaxation makes relax results depend on dst and merged. Non-trivial = compilation with >= 1 relax call; distinct by (instance, diagram, root, width, incumbent, type).",
+        "level_text": "Exploration: the trace specification is checked online on every one of 10^5..10^7 compilations per run (3 diagram types x 3 compilation types).",
+        "level_note": "Trusted: the recording wrappers (they only clone arguments and delegate).",
+        "assumptions": COMMON_ASSUMPTIONS,
+    },
+    "C13": {
+        "cmd": "c13", "flavours": ["checked"], "level": "exploration", "engine_name": "vh-seq", "design_ref": "DESIGN.md §4 C13",
+        "budget": {"quick": 20, "thorough": 240},
+        "technique": "runtime monitoring: per-layer expansion counter on the recorded callbacks (for_each_in_domain calls between two next_variable calls); exhaustive grid over the width combinators",
+        "rule": "models in which every state is impacted by every variable (families T without irrelevance, K); every layer of every restricted compilation must expand <= max_width states, every layer of a relaxed compilation except the root layer and the first below it likewise (expansions = for_each_in_domain calls seen by the wrapper between two next_variable calls); direct driver (widths 1..4) + solver runs (widths 1..5, NbUnassigned, Times, DivBy), incl. absorbing-state instances that hit the recycled merged node path. Grid: Times(k, X) k in 0..5 and DivBy(k, X) k in 1..5 over FixedWidth(0..20) and NbUnassignedWidth at depths 0..20 must return >= 1 (exhaustive). Non-trivial = compilation with a layer whose candidate count exceeded max_width.",
+        "level_text": "Exploration over millions of layers; exhaustive for the combinator grid.",
+        "level_note": "Counts expansions (the observation point named by the property), not bound evaluations.",
+        "assumptions": COMMON_ASSUMPTIONS,
+    },
+    "C17": {
+        "cmd": "c17", "flavours": ["checked", "release"], "level": "exploration", "engine_name": "vh-seq", "design_ref": "DESIGN.md §4 C17",
+        "budget": {"quick": 8, "thorough": 60},
+        "technique": "runtime monitoring: the real default method Solver::gap executed on a stub exposing chosen bounds (exhaustive grid + random pairs) and on real solvers after complete / cut-off runs; arithmetic predicate on the returned f32",
+        "rule": "all 120 pairs lb <= ub over {MIN, MIN+1, -2^62, -1e9, -1000, -2, -1, 0, 1, 2, 1000, 1e9, 2^62, MAX-1, MAX} (exhaustive), random pairs of every magnitude incl. lb = ub, ub = lb+1, ub = -lb, one bound 0; gap() of real sequential / parallel solvers after complete and cut-off runs of family T instances (optimum 0, negative, infeasible). Predicate: not NaN, >= 0, == 1 while a bound is infinite, == 0 iff lb == ub, <= 1 when both bounds have the same sign, no panic. Non-trivial = pair with finite, different bounds (distinct by pair), or a solver run.",
+        "level_text": "Exploration, exhaustive on the boundary grid; the property is a pure function of two integers so the grid + random magnitudes cover its branches.",
+        "level_note": "Checked builds turn arithmetic overflow inside gap() into a panic (= violation).",
+        "assumptions": ["the predicate is the literal reading of the property statement"],
+    },
+    "C18": {
+        "cmd": "c18", "flavours": ["checked"], "level": "exploration", "engine_name": "vh-stress", "design_ref": "DESIGN.md §4 C18",
+        "budget": {"quick": 25, "thorough": 300},
+        "addons": ["tsan_c18", "miri_c18"],
+        "technique": "runtime monitoring: sequential spec by exhaustive operation sequences against a naive model; concurrent histories of 2..16 real threads with invocation/response stamps and unique written values, checked offline per key (linear-time max-register linearizability conditions; necessary conditions + final-state equivalence for the dominance store); TSan and Miri on the same workloads (thorough)",
+        "rule": "(a) every operation sequence up to length 4 (quick) / 5 (thorough) over {update(2 states x 2 depths x 3 values x explored), get, clear_layer, clear} on the real SimpleCache vs 'list of updates since the last clear; answer = lexicographic max (value, explored)', all keys compared after every operation, must_explore (default method) vs the model; random sequences of both stores. (b) concurrent: 2..16 threads released by a spinning barrier hammer 1..3 keys; every written value is unique (thread, counter); per key: a get must return a value written by an update invoked before the get's response, >= every update completed before its invocation, gets ordered in real time never decrease, final value = max of all updates; clear_layer of another layer leaves the traffic layers intact; dominance store: a dominated answer needs a dominating entry invoked before the response (also at the threshold), a not-dominated answer must have no dominating entry completed before the invocation, and after quiescence the store answers the whole universe as the Pareto front of everything presented. Non-trivial = concurrent history with >= 1 pair of overlapping calls of different threads on the same key (measured from the stamps), or a sequence with >= 2 updates of one key.",
+        "level_text": "Exploration: exhaustive for the sequential spec on a small alphabet; thousands of stamped concurrent histories with millions of measured overlapping same-key call pairs per run; sanitizers add data-race / UB detection in dashmap as driven by ddo.",
+        "level_note": "The concurrent conditions are necessary conditions of linearizability (no false alarm possible), sufficient for the max-register; real-thread histories are not replayable exactly (the replay command re-runs the workload 200 times).",
+        "assumptions": ["stamps come from one global SeqCst counter taken immediately before the call and after the reply"],
+    },
 }
 
 HOOK_COMMITS = ["da0cac8"]
